@@ -62,6 +62,9 @@ def request_spec(draw: Any, i: int) -> Dict[str, Any]:
         "method": draw(st.sampled_from(["GET", "POST", "PUT"])) if n == 0 else "POST",
         "app": {"mode": mode, "resp_len": draw(st.sampled_from([0, 1, 10, 2000, 70000])),
                 "resp_cl": draw(st.booleans()), "app_close": draw(st.integers(0, 7)) == 0,
+                # the application's own wish to keep the connection: does not lift a limit
+                "app_keepalive": draw(st.sampled_from([None, None, None, "keep-alive",
+                                                       "Keep-Alive"])),
                 "delay": draw(st.sampled_from([0, 0, 0.5])),
                 "stay": draw(st.booleans())},
     }
@@ -147,6 +150,9 @@ def app_program(i: int, r: Dict[str, Any]) -> list:
         headers.append(["content-length", str(len(body))])
     if a["app_close"]:
         headers.append(["connection", "close"])
+    elif a.get("app_keepalive"):
+        headers.append(["Connection" if a["app_keepalive"][0] == "K" else "connection",
+                        a["app_keepalive"]])
     start = ["send", {"type": "http.response.start", "status": 200, "headers": headers}]
     sends = []
     if body:
